@@ -124,23 +124,30 @@ EmitOne(alts) == \E e \in alts : emit' = e
 ---------------------------------------------------------------------------
 (* Startup negotiation (handshake.go, wire.go serve).                      *)
 
+\* cfg.auth: "none"; "clear" (ClearTextPassword with the user's validator); "custom-ok" / "custom-fail": a strategy
+\* of the user's own (SessionAuthStrategy) that sees the client parameters, and announces AuthenticationOk itself
+\* or returns an error - a strategy that fails never yields a session (an ErrorResponse before the close is optional)
+AuthCb(kvs) == Cb([name |-> "auth", user |-> Get(KvMap(kvs), "user", ""), db |-> Get(KvMap(kvs), "database", "")])
+AfterStartup(kvs) ==
+    IF cfg.auth = "none" THEN emit' = <<Rv(MsgAuth(0))>> /\ phase' = "postauth"
+    ELSE IF cfg.auth = "custom-ok" THEN emit' = <<AuthCb(kvs), Rv(MsgAuth(0))>> /\ phase' = "postauth"
+    ELSE IF cfg.auth = "custom-fail"
+    THEN EmitOne({<<AuthCb(kvs), CloseEv>>, <<AuthCb(kvs), Rv(ErrAny), CloseEv>>}) /\ phase' = "closed"
+    ELSE emit' = <<Rv(MsgAuth(3))>> /\ phase' = "auth"
+
 DoStartup ==
     /\ Reading("startup") /\ Head1.t = "Startup"
     /\ Consume
     /\ \/ /\ Head1.term
           /\ cparams' = KvMap(Head1.kvs)
-          /\ IF cfg.auth = "none"
-             THEN emit' = <<Rv(MsgAuth(0))>> /\ phase' = "postauth"
-             ELSE emit' = <<Rv(MsgAuth(3))>> /\ phase' = "auth"
+          /\ AfterStartup(Head1.kvs)
        \/ \* E10: no final terminator: close ...
           /\ ~Head1.term
           /\ emit' = <<CloseEv>> /\ Closed /\ UNCHANGED cparams
        \/ \* ... or a session whose client parameters are the complete pairs
           /\ ~Head1.term
           /\ cparams' = KvMap(Head1.kvs)
-          /\ IF cfg.auth = "none"
-             THEN emit' = <<Rv(MsgAuth(0))>> /\ phase' = "postauth"
-             ELSE emit' = <<Rv(MsgAuth(3))>> /\ phase' = "auth"
+          /\ AfterStartup(Head1.kvs)
     /\ UNCHANGED <<cfg, ssl, mwi, eof, faulted, stmts, portals, skip, hq, h>>
 
 DoSSLRequest ==
